@@ -432,6 +432,9 @@ def rerun(workers):
             res = judge(k, relfile, src, pt, r["props"])
             with lock:
                 files[p][i] = dict(r, **res)
+                with open(p, "w") as f:
+                    for rr in files[p]:
+                        f.write(json.dumps(rr) + "\n")
                 print("%-45s %-8s line %-4d %-28s -> %s %s" % (r["fn"][:45], r["kind"], r["line"], r["desc"][:28],
                                                             res["status"], ",".join(res.get("by", []))), flush=True)
     with ThreadPoolExecutor(workers) as ex:
